@@ -1,18 +1,32 @@
 #!/usr/bin/env python3
-"""tools/mut.py <pid> <repo-relative-file> <old> <new> : apply a textual mutation to /repo, run the quick check, revert."""
-import subprocess, sys
+"""tools/mut.py <pid> <repo-relative-file> <old> <new> [harness-substring]:
+apply a textual mutation to a scratch worktree of /repo (/tmp/mutrepo, created on demand at /repo's HEAD plus its
+uncommitted changes are NOT included), run the quick check against it (no evidence written), revert."""
+import os, subprocess, sys
 pid, f, old, new = sys.argv[1:5]
-p = "/repo/" + f
+only = sys.argv[5] if len(sys.argv) > 5 else None
+WT = "/tmp/mutrepo"
+head = subprocess.run(["git", "-C", "/repo", "rev-parse", "HEAD"], capture_output=True, text=True).stdout.strip()
+if os.path.isdir(WT):
+    cur = subprocess.run(["git", "-C", WT, "rev-parse", "HEAD"], capture_output=True, text=True).stdout.strip()
+    if cur != head:
+        subprocess.run(["git", "-C", WT, "checkout", "-q", "--detach", head])
+else:
+    subprocess.run(["git", "-C", "/repo", "worktree", "add", "-q", "--detach", WT, head], check=True)
+subprocess.run(["git", "-C", WT, "checkout", "-q", "--", "."])
+p = os.path.join(WT, f)
 s = open(p).read()
 if old not in s:
     print("MUTATION TARGET NOT FOUND"); sys.exit(3)
 open(p, "w").write(s.replace(old, new, 1))
+env = dict(os.environ, GOFLAGS="-mod=mod", GOPROXY="off", VERIF_REPO=WT)
+if only:
+    env["VERIF_ONLY"] = only
 try:
-    b = subprocess.run(["go", "build", "./" + f.rsplit("/", 1)[0]], cwd="/repo", capture_output=True, text=True,
-                       env=dict(__import__("os").environ, GOFLAGS="-mod=mod", GOPROXY="off"))
+    b = subprocess.run(["go", "build", "./" + f.rsplit("/", 1)[0]], cwd=WT, capture_output=True, text=True, env=env)
     if b.returncode != 0:
         print("MUTANT DOES NOT COMPILE:", b.stderr[:300]); sys.exit(4)
-    r = subprocess.run(["./check", pid, "quick"], cwd="/verif", capture_output=True, text=True)
+    r = subprocess.run(["./check", pid, "quick"], cwd="/verif", capture_output=True, text=True, env=env)
     v = [l for l in r.stdout.splitlines() if l.startswith("VIOLATION")]
     print("rc=%d violations=%d" % (r.returncode, len(v)))
     for l in v[:3]:
@@ -20,4 +34,4 @@ try:
     if r.returncode not in (0, 1):
         print(r.stderr[-1500:])
 finally:
-    subprocess.run(["git", "checkout", "--", f], cwd="/repo")
+    subprocess.run(["git", "-C", WT, "checkout", "-q", "--", "."])
